@@ -156,12 +156,14 @@ def check(ctx):
         kw = {k.arg: k.value for k in n.ast.value.keywords}
         vec = fold(kw.get('R_vec'), Scope.of(df)) if 'R_vec' in kw else None
         comp = None
-        for f in g.facts_at(n):
-            if f.op == '<' and f.pol and isinstance(f.left, ast.Subscript) and fold_in(df, f.right) == 0.0:
-                comp = (fold_in(df, f.left.slice), norm(f.left.value))
+        for e in g.dominating_edges(n):
+            for f in e.facts():
+                if f.op == '<' and f.pol and isinstance(f.left, ast.Subscript) and fold_in(df, f.right) == 0.0:
+                    # the tested coordinate, with every local read back to what it was computed from (the calls are pure geometry)
+                    comp = (fold_in(df, f.left.slice), norm(g.expand_locals(e.src, f.left.value, pure_only=False)))
         table[comp] = (vec, norm(n.ast.targets[0]))
-    want_z = (0, '%s.rotate_translate(x_axis_mean)' % raw)
-    want_x = (2, '%s.rotate_translate(bs_pose.translation)' % raw)
+    want_z = (0, '%s.rotate_translate(np.mean(%s, axis=0))' % (raw, xa))
+    want_x = (2, '%s.rotate_translate(list(%s.values())[0].translation)' % (raw, bsp2))
     okz = want_z in table and table[want_z][0] is not None and tuple(round(v, 9) for v in table[want_z][0]) == (0.0, 0.0, round(math.pi, 9))
     okx = want_x in table and table[want_x][0] is not None and tuple(round(v, 9) for v in table[want_x][0]) == (round(math.pi, 9), 0.0, 0.0)
     ctx.inst('R3', df, 'x-negative->flip-about-z', okz, 'x-axis mean mapping to X<0 is corrected by a half turn about Z; table %s' % {k: v[0] for k, v in table.items()})
@@ -174,7 +176,7 @@ def check(ctx):
         ok = ok and any(g.dominates(f, n) and norm(f.ast.targets[0]) == flipvar and g.fact_keys_at(f) == g.fact_keys_at(n) for f in flips)
     ctx.inst('R3', df, 'flips-compose-on-the-left', ok, 'each flip F is applied as F.rotate_translate_pose(current transform) under its own test')
     st = {norm(s.targets[0]): norm(s.value) for s in df.node.body if isinstance(s, ast.Assign)}
-    ctx.inst('R3', df, 'references', st.get('x_axis_mean') == 'np.mean(%s, axis=0)' % xa and st.get('bs_pose') == 'list(%s.values())[0]' % bsp2 and st.get('transformation') == raw,
+    ctx.inst('R3', df, 'references', want_z in table and want_x in table and st.get('transformation') == raw,
              'tests use the mean x-axis sample and the first base station; start from the raw transform')
     rets = [norm(s.value) for s in walk_own(df.node) if isinstance(s, ast.Return)]
     ctx.inst('R3', df, 'returns-transform', rets == ['transformation'], 'the (possibly flipped) transform is returned')
